@@ -66,20 +66,33 @@ class AggHarness:
         webpush.publish_message = AsyncMock()
         self.agg = Aggregator(AggregatorDispatcher(), publisher, webpush)
         self.handlers = AggregatorMessageHandlers(self.agg)
-        self.engine_id = self.agg.create_engine_id(self._register_msg())
+        self._eids: dict[int, str] = {}
+        self.engine_id = self.eid(0)
 
     # -- messages ----------------------------------------------------------------------
-    def _register_msg(self):
+    # `engine` = index of the engine the message comes from (0 = the default engine; other indexes are further
+    # computers with the same UOD, i.e. further engine ids)
+    def _register_msg(self, engine: int = 0):
         import openpectus.protocol.engine_messages as EM
         from openpectus import __version__
-        return EM.RegisterEngineMsg(computer_name=self.COMPUTER, uod_name=self.UOD, uod_author_name="", uod_author_email="",
+        computer = self.COMPUTER if engine == 0 else f"{self.COMPUTER}{engine}"
+        return EM.RegisterEngineMsg(computer_name=computer, uod_name=self.UOD, uod_author_name="", uod_author_email="",
                                     uod_filename="", location="", engine_version=__version__)
 
-    def register(self):
-        return run(self.handlers.handle_RegisterEngineMsg(self._register_msg()))
+    def eid(self, engine: int = 0) -> str:
+        if engine not in self._eids:
+            self._eids[engine] = self.agg.create_engine_id(self._register_msg(engine))
+        return self._eids[engine]
 
-    def disconnect(self):
-        return run(self.handlers.handle_EngineDisconnected(self.engine_id))
+    def engine_index(self, engine_id: str) -> int:
+        """inverse of `eid` for the engines 0..9"""
+        return next(i for i in range(10) if self.eid(i) == engine_id)
+
+    def register(self, engine: int = 0):
+        return run(self.handlers.handle_RegisterEngineMsg(self._register_msg(engine)))
+
+    def disconnect(self, engine: int = 0):
+        return run(self.handlers.handle_EngineDisconnected(self.eid(engine)))
 
     def uod_info(self, tag_names: list[str], interval: float):
         import openpectus.protocol.engine_messages as EM
@@ -92,15 +105,15 @@ class AggHarness:
                             data_log_interval_seconds=interval)
         return run(self.handlers.handle_UodInfoMsg(msg))
 
-    def run_started(self, run_id: str, started_tick: float = 1000.0):
+    def run_started(self, run_id: str, started_tick: float = 1000.0, engine: int = 0):
         import openpectus.protocol.engine_messages as EM
-        return run(self.handlers.handle_RunStartedMsg(EM.RunStartedMsg(engine_id=self.engine_id, run_id=run_id,
+        return run(self.handlers.handle_RunStartedMsg(EM.RunStartedMsg(engine_id=self.eid(engine), run_id=run_id,
                                                                        started_tick=started_tick)))
 
-    def run_stopped(self, run_id: str):
+    def run_stopped(self, run_id: str, engine: int = 0):
         import openpectus.protocol.engine_messages as EM
         import openpectus.protocol.models as PM
-        msg = EM.RunStoppedMsg(engine_id=self.engine_id, run_id=run_id, runlog=PM.RunLog.empty(),
+        msg = EM.RunStoppedMsg(engine_id=self.eid(engine), run_id=run_id, runlog=PM.RunLog.empty(),
                                method_state=PM.MethodState.empty(), archive=None, archive_filename=None)
         return run(self.handlers.handle_RunStoppedMsg(msg))
 
@@ -117,12 +130,35 @@ class AggHarness:
         return run(self.handlers.handle_ErrorLogMsg(EM.ErrorLogMsg(engine_id=self.engine_id, log=log)))
 
     # -- observations ------------------------------------------------------------------
-    def engine_data(self):
-        return self.agg.get_registered_engine_data(self.engine_id)
+    def engine_data(self, engine: int = 0):
+        return self.agg.get_registered_engine_data(self.eid(engine))
 
-    def current_run_id(self) -> str | None:
-        ed = self.engine_data()
+    def current_run_id(self, engine: int = 0) -> str | None:
+        ed = self.engine_data(engine)
         return ed.run_data.run_id if ed is not None and ed.has_run() else None
+
+    def plot_log_rows(self) -> list[tuple[str, str]]:
+        """(engine_id, run_id) of every PlotLogs row, in insertion order."""
+        from sqlalchemy import select
+        P = self.DMdl.PlotLog
+        with self.database.create_scope():
+            s = self.database.scoped_session()
+            return [(a, b) for (a, b) in s.execute(select(P.engine_id, P.run_id).order_by(P.id)).all()]
+
+    def recent_run_rows(self) -> list[tuple[str, str]]:
+        """(engine_id, run_id) of every RecentRuns row, in insertion order."""
+        from sqlalchemy import select
+        R = self.DMdl.RecentRun
+        with self.database.create_scope():
+            s = self.database.scoped_session()
+            return [(a, b) for (a, b) in s.execute(select(R.engine_id, R.run_id).order_by(R.id)).all()]
+
+    def stored_error_log(self, run_id: str):
+        """entries of the RecentRunErrorLog stored for a run (None if there is no such row)"""
+        from openpectus.aggregator.data.repository import RecentRunRepository
+        with self.database.create_scope():
+            log = RecentRunRepository(self.database.scoped_session()).get_error_log_by_run_id(run_id)
+            return None if log is None else list(log.entries)
 
     def plot_log_run_ids(self) -> list[str]:
         """run_id of every PlotLogs row, in insertion order."""
